@@ -173,6 +173,79 @@ def gen_merge_jobs(ctx, n):
     return jobs
 
 
+def gen_reindex_jobs(ctx, n):
+    rng = ctx.rng
+    jobs = []
+    for i in range(n):
+        cells, nn = gen_cluster(rng, rng.randint(1, 5))
+        N = nn + rng.randint(0, 6)
+        inj = rng.sample(range(N), nn)
+        polys = [[[inj[v] for v in f] for f in c] for c in cells]
+        used = set(inj)
+        unused = [v for v in range(N) if v not in used]
+        conv = list(range(N))
+        mode = rng.choice(['identity', 'merged', 'merged', 'chains'])
+        if mode != 'identity':
+            rng.shuffle(unused)
+            for b in unused[:rng.randint(0, len(unused))]:
+                # b was merged into a (a: any node that is still a root)
+                roots = [v for v in range(N) if conv[v] == v and v != b]
+                if mode == 'merged':
+                    roots = [v for v in roots if v in used] or roots
+                if roots:
+                    # keep the forest acyclic: never point into b's own subtree
+                    def root_of(v):
+                        while conv[v] != v:
+                            v = conv[v]
+                        return v
+                    a = rng.choice(roots)
+                    if root_of(a) != b:
+                        conv[b] = a
+        pos = [[rng.randint(-8, 8) for _ in range(3)] for _ in range(N)]
+        jobs.append({'id': i, 'mode': mode, 'polys': polys, 'conv': conv, 'pos': pos})
+    return jobs
+
+
+def eval_reindex(ctx, jobs, res):
+    lines = [HEADER, f'Definition tol : Q := {lib.coq_Q(TOL)}.']
+    cases = []
+    for job, r in zip(jobs, res):
+        ctx.count('reindex_mode:' + job['mode'])
+        ctx.case(['reindex', job['polys'], job['conv']], nontrivial=job['conv'] != list(range(len(job['conv']))),
+                 sample={'reindex': {'polys': job['polys'][:1], 'conv': job['conv']}} if job['id'] == 0 else None)
+        if 'error' in r:
+            ctx.violation('correspondence', {'jobs': {'reindex': [job]}}, 'reindex returns', r['error'],
+                          'correspondence reindex ~ ModelReindex.reindex',
+                          signature={'check': 'reindex', 'symptom': 'raises'})
+            continue
+        pos = lib.coq_list(['(%s, %s, %s)' % tuple(lib.coq_Q(Fr(c)) for c in row) for row in job['pos']])
+        conv = lib.coq_list([cz(v) for v in job['conv']])
+        conv2 = lib.coq_list([cz(v) for v in r['conv']])
+        cases.append((job['id'], f'reindex_hyps {cpolys(job["polys"])} {conv} && '
+                      f'chk_reindex tol {cpolys(job["polys"])} {conv} {pos} '
+                      f'{cpolys(r["polys"])} {conv2} {cpos(r["pos"])}'))
+    lines.append('Goal True. idtac "@@ reindex". Abort.')
+    lines.append('Eval vm_compute in map fst (filter (fun c => negb (snd c)) ' +
+                 lib.coq_list([f'({cz(i)}, {e})' for i, e in cases]) + ').')
+    rc, out, err = ctx.coq_eval('CasesReindex', '\n'.join(lines) + '\n')
+    bad = None if rc != 0 else failing(lib.parse_marked(out).get('reindex', ''))
+    if bad is None:
+        ctx.violation('correspondence', {}, 'CasesReindex.v evaluates', (err or out)[-600:],
+                      'correspondence reindex ~ ModelReindex.reindex', found_input=False,
+                      signature={'check': 'reindex', 'symptom': 'coq-eval-failed'})
+        return
+    ctx.corr['cases'] += len(cases)
+    ctx.corr['reindex_cases'] = len(cases)
+    ctx.corr['disagreements'] += len(bad)
+    for job, r in zip(jobs, res):
+        if job['id'] in bad:
+            ctx.violation('correspondence', {'jobs': {'reindex': [job]}},
+                          'ModelReindex.reindex / recalc_pos', {k: r.get(k) for k in ('polys', 'conv')},
+                          'correspondence reindex ~ ModelReindex.reindex (C20_reindex_exact)',
+                          signature={'check': 'reindex', 'mode': job['mode']},
+                          what='reindex / recalc_node_pos disagree with the model')
+
+
 def gen_run_jobs(ctx, n):
     rng = ctx.rng
     jobs = []
@@ -182,7 +255,8 @@ def gen_run_jobs(ctx, n):
         dict(kind='hex', cos_thresh=0.99, dist_thresh=0.0),
         dict(kind='tet', cos_thresh=0.99, dist_thresh=0.0),
         dict(kind='tet', cos_thresh=0.95, dist_thresh=0.0, mat='shear'),
-        dict(kind='hex', cos_thresh=0.9, dist_thresh=1.1),
+        dict(kind='hex', cos_thresh=0.999, dist_thresh=1.1, mat='identity', n=[3, 2, 4], elem_num=2,
+             scale=1.0),
         dict(kind='tet', cos_thresh=0.0, dist_thresh=0.0, mat='identity', elem_num=8),
         dict(kind='hex', cos_thresh=0.999, dist_thresh=0.0, mat='rot3', elem_num=1000),
     ]
@@ -191,10 +265,11 @@ def gen_run_jobs(ctx, n):
         kind = p.get('kind', rng.choice(['hex', 'tet']))
         hi = 4 if kind == 'hex' else 3
         nn = [rng.randint(1, hi) for _ in range(3)]
+        nn = p.get('n', nn)
         if nn == [1, 1, 1]:
             nn[rng.randrange(3)] = 2
         mat = p.get('mat', rng.choice(['identity', 'identity', 'shear', 'rot3', 'refl3']))
-        scale = rng.choice([1.0, 1.0, 0.5, 0.25])
+        scale = p.get('scale', rng.choice([1.0, 1.0, 0.5, 0.25]))
         n_nodes = (nn[0] + 1) * (nn[1] + 1) * (nn[2] + 1)
         idmode = rng.choice(['plain', 'sparse', 'shuffled'])
         node_ids = node_perm = None
@@ -205,7 +280,9 @@ def gen_run_jobs(ctx, n):
             node_perm = list(range(n_nodes))
             rng.shuffle(node_perm)
         cos_t = p.get('cos_thresh', rng.choice([0.999, 0.99, 0.95, 0.9, 0.7, 0.5, 0.2]))
-        dist_t = p.get('dist_thresh', rng.choice([0.0, 0.0, 0.0, 1.1, 2.5])) * scale
+        # relative to the shortest edge of the (transformed) lattice
+        dist_t = p.get('dist_thresh', rng.choice([0.0, 0.0, 0.0, 1.1, 2.5])) * scale * \
+            {'identity': 1.0, 'shear': 2.3, 'rot3': 3.0, 'refl3': 3.0}[mat]
         elem_num = p.get('elem_num', rng.choice([1, 2, 3, 5, 8, 1000]))
         knns = [1, 2, 3, 4]
         transfers = []
@@ -336,13 +413,14 @@ def eval_merge(ctx, mjobs, mres):
     ctx.corr['cases'] += len(cases)
     ctx.corr['disagreements'] += len(bad)
     ctx.corr['merge_synthetic'] = len(cases)
-    for job, r in zip(mjobs, mres):
+    order = sorted(range(len(mjobs)), key=lambda i: sum(len(p) for p in mjobs[i]['polys']))
+    for job, r in [(mjobs[i], mres[i]) for i in order]:
         if job['id'] in bad:
             ctx.violation('correspondence', {'jobs': {'merge': [job]}},
                           'Model.merge of each connected group (multiset of canonical faces)',
                           {'impl_polys': r.get('polys'), 'elem_conv': r.get('elem_conv')},
                           'correspondence merge_polyhedrons ~ Model.merge',
-                          signature={'check': 'merge', 'case_kind': job['kind'], 'id': job['id']},
+                          signature={'check': 'merge', 'case_kind': job['kind']},
                           what='merge_polyhedrons disagrees with the model')
 
 
@@ -642,6 +720,8 @@ def evaluate(ctx, jobs, timeout):
         return None
     if jobs.get('merge'):
         eval_merge(ctx, jobs['merge'], res['merge'])
+    if jobs.get('reindex'):
+        eval_reindex(ctx, jobs['reindex'], res['reindex'])
     if jobs.get('runs'):
         eval_runs(ctx, jobs['runs'], res['runs'])
         eval_transfers(ctx, jobs['runs'], res['runs'])
@@ -679,6 +759,7 @@ def main(ctx):
         ctx.notes['build_log_tail'] = log[-1500:]
     thorough = ctx.tier == 'thorough'
     jobs = {'merge': gen_merge_jobs(ctx, 400 if thorough else 120),
+            'reindex': gen_reindex_jobs(ctx, 300 if thorough else 80),
             'runs': gen_run_jobs(ctx, 60 if thorough else 6)}
     # corpus first
     corpus = sorted((lib.VERIF / 'corpus' / PID).glob('*.json')) if (lib.VERIF / 'corpus' / PID).exists() else []
@@ -714,7 +795,8 @@ def replay(path):
         return 1
     ctx = lib.Ctx(PID, 'quick')
     lib.coq_make(['C20/Harness.vo'])
-    jobs = {'merge': jobs.get('merge', []), 'runs': jobs.get('runs', [])}
+    jobs = {'merge': jobs.get('merge', []), 'runs': jobs.get('runs', []),
+            'reindex': jobs.get('reindex', [])}
     for k in jobs:
         for i, j in enumerate(jobs[k]):
             j['id'] = i
